@@ -60,7 +60,7 @@ def cases(tier: str, seed: int) -> list[dict]:
     rep = 1 if tier == "quick" else 8
     sims = [("elastic", 2, "TRI3"), ("elastic", 2, "QUAD8"), ("elastic", 3, "TETRA4"), ("elastic", 3, "HEXA8"), ("thermal", 2, "TRI6"),
             ("thermal", 3, "PRISM6"), ("weakforms", 2, "TRI3"), ("weakforms2", 2, "QUAD4"), ("beam2", 2, "SEG3"), ("beam3", 3, "SEG2"),
-            ("probe", 2, "TRI3"), ("elastic", 2, "TRI10"), ("thermal", 2, "QUAD9")]
+            ("probe", 2, "TRI3"), ("elastic", 2, "TRI10"), ("thermal", 2, "QUAD9"), ("probe-unsym", 2, "TRI3"), ("probe-unsym", 3, "TETRA4")]
     for r in range(rep):
         for kind, dim, et in sims:
             out.append({"sc": "bcprog", "kind": kind, "dim": dim, "et": et, "solver": "scipy"})
@@ -78,7 +78,7 @@ def cases(tier: str, seed: int) -> list[dict]:
                     out.append({"sc": "connection", "kind": "beam", "dim": bdim, "et": ["SEG2", "SEG3"][bdim % 2], "theory": theory, "conn": conn, "solver": "scipy"})
         for kind, dim, et in [("hyperelastic", 2, "TRI3"), ("hyperelastic", 3, "TETRA4"), ("inelastic", 2, "QUAD4"), ("inelastic", 3, "TETRA4")]:
             out.append({"sc": "newton", "kind": kind, "dim": dim, "et": et, "solver": "scipy"})
-        for kind, dim, et in [("elastic", 2, "QUAD4"), ("thermal", 2, "TRI3"), ("probe", 2, "TRI3"), ("elastic", 3, "TETRA4"), ("beam2", 2, "SEG2"), ("weakforms", 2, "TRI6")]:
+        for kind, dim, et in [("elastic", 2, "QUAD4"), ("thermal", 2, "TRI3"), ("probe", 2, "TRI3"), ("elastic", 3, "TETRA4"), ("beam2", 2, "SEG2"), ("weakforms", 2, "TRI6"), ("probe-unsym", 2, "QUAD4")]:
             out.append({"sc": "history", "kind": kind, "dim": dim, "et": et, "solver": "scipy"})
         out.append({"sc": "lsq", "kind": "phasefield", "dim": 2, "et": "TRI3", "solver": "lsq_linear"})
         out.append({"sc": "lsq", "kind": "phasefield", "dim": 2, "et": "QUAD4", "solver": "lsq_linear"})
@@ -96,7 +96,7 @@ def _make(kind: str, rng, dim, et, bc=False):
         return _sims.make("beam", rng, 2, et, bc=bc, bdim=2, theory="EB")
     if kind == "beam3":
         return _sims.make("beam", rng, 3, et, bc=bc, bdim=3, theory="Timo")
-    if kind == "probe":
+    if kind in ("probe", "probe-unsym"):
         with quiet():
             mesh, (Lx, Ly, h) = _sims.small_mesh(rng, dim, et)
             dof_n = 2
@@ -106,6 +106,10 @@ def _make(kind: str, rng, dim, et, bc=False):
                 nl = g.nPe * dof_n
                 B = rng.normal(size=(g.Ne, nl, nl))
                 Ke = B @ B.transpose(0, 2, 1) + 0.5 * np.eye(nl)  # SPD element matrices -> SPD global matrix
+                if kind == "probe-unsym":
+                    # a non-symmetric operator (advection-like term) whose symmetric part stays positive definite
+                    W = rng.normal(size=(g.Ne, nl, nl))
+                    Ke = Ke + 0.8 * (W - W.transpose(0, 2, 1))
                 Fe = rng.normal(size=(g.Ne, nl))
                 local[g] = (Ke, None, None, Fe)
             simu.local = local
